@@ -47,6 +47,11 @@ CLAIMS = {
             "that no request can crash a handler through a nil sub-message, an unguarded index, an unchecked assertion or an explicit panic, "
             "that every option the client sends is read and forwarded 1:1, the metadata write-back, the sticky capability fallback and the "
             "event-type tables. Observational equivalence on arbitrary sequences is not decided.", "§3 C11"),
+    "C13": ("path-cut on the client's receive/retry helper + field-coverage agreement between initial and resume requests",
+            "Decides the resume mechanism: the re-established watch clears bootstrap/tail, starts from the last recorded bookmark and carries "
+            "every other field of the initial request; retries happen only with a bookmark and end loudly on an invalid bookmark, exhausted "
+            "backoff or a done context; bookmarks are recorded per event before delivery; errors are terminal; batches are delivered whole. "
+            "Equality with the server's log over all fault sequences is not decided.", "§3 C13"),
     "C12": ("table/constant agreement of the bookmark codec + guard-normal-form path-cut on the range and tail guards",
             "Decides codec agreement and bounds, that a bookmark is accepted only inside the stated window (exact linear normal forms, so "
             "an off-by-one or a dropped gap is a violation) and rejected with the invalid-bookmark class before any goroutine exists, that "
